@@ -35,6 +35,7 @@ type skeleton struct {
 	initial map[string]string // initial Gallina value of a followed variable that the block does not define
 	stop    string            // stop before the first statement whose source contains this text
 	resCond string            // if set: the result is the condition of the first if whose source contains this text
+	guards  bool              // early-exit ifs (return inside, nothing followed assigned) become boolean results, in order
 }
 
 func galName(v skelVar) string {
@@ -46,12 +47,13 @@ func galName(v skelVar) string {
 }
 
 type skelGen struct {
-	p    *pkgInfo
-	sk   *skeleton
-	env  *exprEnv
-	vars map[string]skelVar
-	out  []string
-	ok   bool
+	p      *pkgInfo
+	sk     *skeleton
+	env    *exprEnv
+	vars   map[string]skelVar
+	out    []string
+	ok     bool
+	guards []string // names of the guard conditions collected so far
 }
 
 func (g *skelGen) fail(format string, a ...any) {
@@ -161,7 +163,16 @@ func (g *skelGen) stmts(list []ast.Stmt, indent string) []string {
 		case *ast.IfStmt:
 			as := g.assigned(t)
 			if len(as) == 0 {
-				continue // a guard or something about values: outside the skeleton
+				if g.sk.guards && hasReturn(t) && t.Init == nil {
+					// an early exit: its condition (over the followed variables, as they are at
+					// this point) is part of the skeleton
+					if c, ok := g.env.tr(t.Cond); ok {
+						name := fmt.Sprintf("b_guard%d", len(g.guards)+1)
+						g.guards = append(g.guards, name)
+						out = append(out, indent+"let "+name+" := "+c+" in")
+					}
+				}
+				continue // something about values: outside the skeleton
 			}
 			if t.Init != nil || hasReturn(t) {
 				g.fail("a followed variable is assigned in an if with init or return: %s", strings.SplitN(src, "\n", 2)[0])
@@ -243,7 +254,7 @@ func (sk *skeleton) gen(p *pkgInfo) string {
 	for _, k := range keys {
 		body = append(body, "  let "+galName(g.vars[k])+" := "+sk.initial[k]+" in")
 	}
-	result := tupleOf(sk.tracked)
+	result := ""
 	if sk.resCond != "" {
 		// translate up to the if whose condition is the result
 		var pre []ast.Stmt
@@ -264,10 +275,24 @@ func (sk *skeleton) gen(p *pkgInfo) string {
 		resType = "bool"
 	} else {
 		body = append(body, g.stmts(blk.List, "  ")...)
+		// guards first (in source order), then the followed variables
+		names := append([]string{}, g.guards...)
+		resT = resT[:0]
+		for range g.guards {
+			resT = append(resT, "bool")
+		}
+		for _, v := range sk.tracked {
+			resT = append(resT, v.kind)
+			names = append(names, galName(v))
+		}
+		resType = strings.Join(resT, " * ")
+		if len(names) == 1 {
+			result = names[0]
+		} else {
+			result = "(" + strings.Join(names, ", ") + ")"
+		}
 	}
-	if len(g.env.oblig) > 0 {
-		problem("scalar skeleton %s: division inside a skeleton is not supported", sk.name)
-	}
+	checkOblig(g.env, sk.name)
 	var sb strings.Builder
 	sb.WriteString("(* " + noComment(sk.comment) + " *)\n")
 	sb.WriteString("Definition " + sk.name + " " + strings.Join(sig, " ") + " : " + resType + " :=\n")
@@ -405,6 +430,15 @@ func compositeInit(p *pkgInfo, fd *ast.FuncDecl, varName, typeName string) (fiel
 	return
 }
 
+func checkOblig(g *exprEnv, name string) {
+	for _, o := range g.oblig {
+		if strings.Contains(o, "(2%Z =? 0)") || strings.Contains(o, "(10%Z =? 0)") {
+			continue // a non-zero literal divisor
+		}
+		problem("scalar skeleton %s: division by something that is not a non-zero literal: %s", name, o)
+	}
+}
+
 func genScalar(p *pkgInfo) string {
 	var sb strings.Builder
 	sb.WriteString("(* GENERATED by tools/go2v from /repo on every run. Do not edit.\n   E2: scalar skeletons - the integer/boolean bookkeeping of selected Go functions, translated\n   statement by statement (tools/go2v/scalar.go). The obligations that the hand-written model\n   computes the same are in coq/Tie. *)\nFrom PV Require Import Lib.Bytes Lib.GoInt.\nOpen Scope Z_scope.\n\n")
@@ -462,6 +496,60 @@ func genScalar(p *pkgInfo) string {
 	sb.WriteString("(* the loop information a for tag starts with (the composite literal in tagForNode.Execute);\n   fields: " + strings.Join(fieldNames, ", ") + " *)\n")
 	sb.WriteString("Definition go_for_init := (" + strings.Join(initTuple, ", ") + ").\n")
 	sb.WriteString("Definition go_for_fields : list (list N) := (" + coqStrList(fieldNames) + ")%N.\n\n")
+
+	// ---- padding filters: how many blanks, on which side, and when the filter gives up
+	fbody := func(fn string) func(p *pkgInfo) *ast.BlockStmt {
+		return func(p *pkgInfo) *ast.BlockStmt {
+			if fd := p.findFunc(fn); fd != nil {
+				return fd.Body
+			}
+			return nil
+		}
+	}
+	center := &skeleton{
+		name:    "go_center",
+		comment: "filters_builtin.go filterCenter: (returns the input unchanged?, refuses?, blanks on the left, blanks on the right) from the requested width and the length of the input",
+		block:   fbody("filterCenter"),
+		params:  [][2]string{{"v_width0", "Z"}, {"v_slen0", "Z"}},
+		opaque:  map[string]string{"param.Integer()": "v_width0", "in.Len()": "v_slen0"},
+		tracked: []skelVar{{"width", "Z"}, {"slen", "Z"}, {"spaces", "Z"}, {"left", "Z"}, {"right", "Z"}},
+		stop:    "return AsValue(",
+		guards:  true,
+	}
+	sb.WriteString(center.gen(p))
+	ljust := &skeleton{
+		name:    "go_ljust",
+		comment: "filters_builtin.go filterLjust: (refuses?, blanks appended) from the requested width and the length of the input",
+		block:   fbody("filterLjust"),
+		params:  [][2]string{{"v_width0", "Z"}, {"v_slen0", "Z"}},
+		opaque:  map[string]string{"param.Integer()": "v_width0", "in.Len()": "v_slen0"},
+		tracked: []skelVar{{"times", "Z"}},
+		stop:    "return AsValue(",
+		guards:  true,
+	}
+	sb.WriteString(ljust.gen(p))
+	rjust := &skeleton{
+		name:    "go_rjust",
+		comment: "filters_builtin.go filterRjust: (refuses?, field width handed to the formatter) from the requested width",
+		block:   fbody("filterRjust"),
+		params:  [][2]string{{"v_width0", "Z"}},
+		opaque:  map[string]string{"param.Integer()": "v_width0"},
+		tracked: []skelVar{{"padding", "Z"}},
+		stop:    "return AsValue(",
+		guards:  true,
+	}
+	sb.WriteString(rjust.gen(p))
+	getdigit := &skeleton{
+		name:    "go_get_digit",
+		comment: "filters_builtin.go filterGetdigit: (returns the input unchanged?, position, byte length) from the requested digit and the byte length of the input's text",
+		block:   fbody("filterGetdigit"),
+		params:  [][2]string{{"v_i0", "Z"}, {"v_l0", "Z"}},
+		opaque:  map[string]string{"param.Integer()": "v_i0", "len(in.String())": "v_l0"},
+		tracked: []skelVar{{"i", "Z"}, {"l", "Z"}},
+		stop:    "return AsValue(",
+		guards:  true,
+	}
+	sb.WriteString(getdigit.gen(p))
 
 	// ---- the macro depth guard
 	guard := &skeleton{
